@@ -498,7 +498,14 @@ def run_driver(case, V, C, seen):
     # pass 2: kill the run before every operation after the first complete save; judge the directory.  Second variant: the directory
     # already holds the checkpoint of an earlier run (a resumed or repeated run): then the very first write is an overwrite too
     earlier = {NAME: json.dumps([{"id": "x", "type": "Parameter", "tensor": [9.0, 9.0]}]).encode()}
-    for k, start in [(k, {}) for k in range(creates[1], total + 1)] + [(k, earlier) for k in range(0, total + 1)]:
+    runs = [(k, {}) for k in range(creates[1], total + 1)] + [(k, earlier) for k in range(0, total + 1)]
+    repeated = None
+    if every:
+        # third variant: the run is repeated in a directory that still holds the per-epoch files of an earlier, complete run (same names):
+        # every one of its writes is then a write over an existing checkpoint
+        repeated = {p_: earlier[NAME] for p_ in vfs.files}
+        runs += [(k, repeated) for k in range(0, total + 1)]
+    for k, start in runs:
         if start:
             C["driver_kills_over_an_earlier_checkpoint"] = C.get("driver_kills_over_an_earlier_checkpoint", 0) + 1
         vfs2 = fsshim.VFS(dict(start), case["bufsize"], crash_at=k)
@@ -523,6 +530,11 @@ def run_driver(case, V, C, seen):
             seen.add(("driver", case["algorithm"]) + tuple(sorted(st.values())))
             if st.get(NAME) == "truncated" or st.get(name) == "truncated":
                 V.append(tt.viol("C18:driver:name-truncated:%s:one-file-per-epoch" % alg, "%s run with checkpoint_all killed before operation %d/%d leaves a truncated file under the checkpoint name: %s" % (alg, k, total, st), state=st))
+            if start is repeated:
+                C["driver_kills_of_a_repeated_run_with_one_file_per_epoch"] = C.get("driver_kills_of_a_repeated_run_with_one_file_per_epoch", 0) + 1
+                lost = [p_ for p_ in start if st.get(p_) == "truncated" and not any(st.get(p_ + sfx) == "complete" for sfx in (".old", ".new"))]
+                if lost:
+                    V.append(tt.viol("C18:driver:existing-checkpoint-truncated:%s:one-file-per-epoch:repeated-run" % alg, "%s run with checkpoint_all, repeated over the files of an earlier run, killed before operation %d/%d: %s was a complete checkpoint and is now a truncated file without a complete .old/.new sibling" % (alg, k, total, os.path.basename(lost[0])), state=st))
             if "complete" not in st.values():
                 V.append(tt.viol("C18:driver:no-complete-checkpoint:%s:one-file-per-epoch" % alg, "%s run with checkpoint_all and name %s killed before operation %d/%d leaves no complete checkpoint: %s" % (alg, os.path.basename(name), k, total, st), state=st))
             continue
